@@ -175,6 +175,22 @@ async def s_abor(ctl):
     await ctl.cmd(c, "PWD")
 
 
+async def s_abor_while_waiting(ctl):
+    """the transfer command is sent without the data connection: its worker waits; ABOR finds it waiting; the session
+    goes on (a new listener, a transfer that works) and ends with QUIT"""
+    c = await ctl.client()
+    await ctl.login(c)
+    await ctl.cmd(c, "EPSV")
+    await ctl.send(c, "RETR f.txt")
+    await ctl.loop.settle()
+    await ctl.cmd(c, "ABOR")
+    await ctl.cmd(c, "PWD")
+    await ctl.cmd(c, "EPSV")
+    await ctl.data(c)
+    await ctl.cmd(c, "RETR f.txt")
+    await ctl.cmd(c, "QUIT")
+
+
 async def s_two_sessions(ctl):
     a = await ctl.client()
     b = await ctl.client()
@@ -253,6 +269,7 @@ def corpus(thorough=False):
         Scenario("list-mlsd", s_list_mlsd),
         Scenario("quit", s_quit),
         Scenario("abor", s_abor, tree=TREE_BIG, server_kwargs=small_blocks),
+        Scenario("abor-while-waiting", s_abor_while_waiting, server_kwargs={"wait_future_timeout": 5}),
         Scenario("two-sessions", s_two_sessions, tree=TREE_BIG, server_kwargs=small_blocks),
         Scenario("limits", s_two_sessions, tree=TREE_BIG, server_kwargs={"block_size": 64, "maximum_connections": 3}),
         Scenario("pool", s_pasv_twice, tree=TREE_BIG, server_kwargs={"data_ports": [41001, 41002]}),
